@@ -29,6 +29,8 @@ def exhaustive(c, invariants, restart=False, loaderless=False):
         runs = [(["A", "B"], 1, 5, 1, one), (["A", "B"], 1, 4, 1, two)]
     else:
         runs = [(["A", "B"], 1, 6, 1, one), (["A", "B"], 1, 5, 2, one), (["A", "B"], 2, 5, 1, one), (["A", "B", "C"], 1, 4, 1, one), (["A", "B"], 1, 5, 1, two)]
+    if not restart:
+        c.tlc_model("MC_GitBug", "MC_GitBug_plant.cfg", timeout=1200, label="2 replicas, 2 bugs, <=4 commits, with histories planted from outside among the remote-tracking refs")
     for i, (reps, nbug, maxc, rd, rem) in enumerate(runs):
         if restart:
             maxc -= 1
@@ -71,6 +73,21 @@ def catalogue():
          step("Edit", "A", 2, one), step("Push", "C"), step("Fetch", "A"), step("MergeAll", "A"), step("Push", "A"),
          step("Fetch", "B"), step("MergeAll", "B"), step("Edit", "B", 1, mixed), step("Edit", "C", 1, one), step("Push", "B")]
     scheds.append({"replicas": ["A", "B", "C"], "steps": s, "quiesce": True, "name": "three-replicas"})
+    # a history nobody's git-bug wrote among the remote-tracking bugs: it is reported invalid, the others are merged all the same
+    # (whichever comes first in the listing)
+    for k, order in enumerate((("NewBug", "Plant", "NewBug"), ("Plant", "NewBug", "NewBug"), ("NewBug", "NewBug", "Plant"))):
+        s = []
+        for what in order:
+            s.append(step("NewBug", "A", runs=one) if what == "NewBug" else step("Plant", "B"))
+        s += [step("Push", "A"), step("Fetch", "B"), step("MergeAll", "B"), step("Edit", "B", 1 if order[0] == "NewBug" else 2, two), step("Push", "B"),
+              step("Fetch", "A"), step("MergeAll", "A"), step("Edit", "A", 3 if order[2] == "NewBug" else 2, one), step("Push", "A"), step("Fetch", "B"), step("MergeAll", "B")]
+        scheds.append({"replicas": REPLICAS2, "steps": s, "quiesce": True, "name": "foreign-history-among-the-remote-bugs-%d" % k})
+    # a replica whose edit clock has leapt far ahead (it read a bug created far in the future) has to make the merge commit: merge
+    # commits may sit any distance above their parents
+    s = list(base) + [step("Edit", "A", 1, one), step("Edit", "B", 1, two), step("Push", "B"), step("ClockLeap", "A"), step("Fetch", "A"), step("MergeAll", "A"),
+                      step("Read", "A", 1), step("Push", "A"), step("Fetch", "B"), step("MergeAll", "B"), step("Read", "B", 1), step("Edit", "B", 1, two), step("Push", "B"),
+                      step("Fetch", "A"), step("MergeAll", "A"), step("Read", "A", 1)]
+    scheds.append({"replicas": REPLICAS2, "steps": s, "quiesce": True, "name": "merge-after-the-clock-leapt"})
     # two remotes: the replicas exchange over one, over the other, over both in turn; a remote that lags behind the other is pushed
     # to later (fast-forward) or refused (it holds what the pusher has not merged yet)
     o, k = "origin", "backup"
